@@ -274,6 +274,12 @@ def _is_full(sp, n):
 def grid_fancy_get(interp, st, g, idx, node):
     """a[i0, i1, ...] with one integer index array per dimension (all 1-d, same length): out[k] = a[i0[k], i1[k], ...]"""
     M = _M()
+    if isinstance(idx[0], Arr) and idx[0].ndim == 1 and idx[0].kind != "bool" and all(isinstance(x, slice) and x == slice(None) for x in idx[1:]):
+        # a[[i0, i1, ...]] with a constant number of row indices: the rows a[i0], a[i1], ... stacked
+        rows = [grid_getitem(interp, st, g, e, node) for e in idx[0].flat]
+        if all(isinstance(r, Arr) for r in rows):
+            return Arr.from_nested([r if r.ndim else r.flat[0] for r in rows]) if rows[0].ndim == 0 else Arr((len(rows),) + rows[0].shape, [x for r in rows for x in r.flat], rows[0].kind)
+        return rows
     if len(idx) != g.rank or not all(isinstance(x, Grid) and x.rank == 1 and x.kind == "int" for x in idx):
         raise Outside("fancy / mask indexing read of grid outside (one 1-d integer index array per dimension)", node)
     n = idx[0].dims[0]
